@@ -358,6 +358,9 @@ type Filler struct {
 	NoNaN bool
 	// Big allows repeated fields of thousands of elements.
 	Big bool
+	// NoNilMapValues: pointer-typed map values are never nil (the reference implementation reads
+	// an entry without value as the empty message, which Go tells apart from nil).
+	NoNilMapValues bool
 }
 
 var lenPool = []int{0, 0, 1, 1, 2, 3, 9, 10, 11, 12, 19, 20, 21, 22, 40, 41}
@@ -498,7 +501,9 @@ func (f *Filler) Fill(v reflect.Value, depth int) {
 			k := reflect.New(t.Key()).Elem()
 			f.Fill(k, depth+1)
 			e := reflect.New(t.Elem()).Elem()
-			if e.Kind() == reflect.Pointer {
+			if e.Kind() == reflect.Pointer && !f.NoNilMapValues && r.Chance(1, 5) {
+				// a nil value: the entry carries its key only
+			} else if e.Kind() == reflect.Pointer {
 				p := reflect.New(t.Elem().Elem())
 				f.Fill(p.Elem(), depth+1)
 				e.Set(p)
